@@ -180,6 +180,7 @@ def run(repo, rep, tier):
                                                     f"this row; the scalar path counts every row with positive weight (NaN rows included), so it must "
                                                     f"be the unmasked caller weight", stmt=f"{label.replace(' ', '')}: entries += {ek}")
         if c.name in CONTAINERS:
+            slots_np = {x for x in slots_np if not x.endswith("[another row's key]")}   # the same slot, another row's bin
             ok = slots_np == slots_fill
             r4.ob(ok, f"{c.name}: _numpy visits {sorted(slots_np)}, fill fills {sorted(slots_fill)}")
             if not ok:
